@@ -242,7 +242,7 @@ struct Profile {
 
 // ---------------------------------------------------------------------------
 
-enum Policy : uint8_t { POL_CHOOSER, POL_PASSIVE, POL_HOSTILE };
+enum Policy : uint8_t { POL_CHOOSER, POL_PASSIVE, POL_HOSTILE, POL_VETO };   // VETO: every guard cancels, nothing else
 
 // what a case exercised (decides whether it counts as non-trivial for a property)
 enum CaseFlag : uint32_t {
